@@ -18,7 +18,7 @@ func init() {
 			"(panic) every potential panic site (index, slice, make, type assertion, division, explicit panic) reachable from the wire examiners is discharged by a guard — 'arbitrary bytes never crash the examiner' for these panic classes; " +
 			"(polarity) for every validation predicate in the examiners (field-name/value validity, type-name validity, base64 / JSON / proto decode errors, must-escape bytes, non-hex after '%', upper-case keys, wrong JSON value types, unknown keys, repeated trailers, code range, status/details/message disagreement) the *bad* edge reaches a feedback Printf; " +
 			"(dispatch) each examiner is reachable for its content type, and the 'no HTTP trailers outside gRPC' check is reached for gRPC-Web and Connect content types but not for gRPC ones; " +
-			"(byteset) the field-name validator, evaluated per byte over its branch conditions, accepts exactly the RFC 7230 token characters and the field-value validator exactly HTAB, 0x20–0x7E and 0x80–0xFF; " +
+			"(byteset) the grpc-message must-escape predicate is exactly {<0x20} ∪ {>0x7E} ∪ {'%'}; the field-name validator, evaluated per byte over its branch conditions, accepts exactly the RFC 7230 token characters and the field-value validator exactly HTAB, 0x20–0x7E and 0x80–0xFF; " +
 			"(enc-agree) what the reference server's own encoders emit lies in the validators' accepted sets: lower-cased names and CRLF line ends in the gRPC-Web trailer block, unpadded std base64 for the status details, the percent-encoder for grpc-message, and the validator's must-escape test is the very function the encoder uses. " +
 			"It does NOT decide 'no feedback for every well-formed rendering' over all errors and metadata.",
 		NotDecided: []string{"absence of feedback for every well-formed rendering (all codes × messages × details × metadata)", "library decoders (encoding/json, protojson, base64) never panicking"},
@@ -36,6 +36,8 @@ func init() {
 			Expect: []string{"polarity."}, Note: "valid names flagged, invalid accepted"},
 		Mutant{ID: "C13-del-valid", Prop: "C13", File: f, Old: "\t\tif char != '\\t' && (char < 32 || char == 127) {", New: "\t\tif char != '\\t' && char < 32 {",
 			Expect: []string{"byteset.value"}, Note: "DEL accepted in field values"},
+		Mutant{ID: "C13-del-unescaped", Prop: "C13", File: "internal/grpcutil/metadata.go", Old: "\treturn char < ' ' || char > '~' || char == '%'", New: "\treturn char < ' ' || char >= 0x80 || char == '%'",
+			Expect: []string{"byteset.must-escape"}, Note: "seed C13-1: DEL neither escaped by the server nor flagged by the client"},
 		Mutant{ID: "C13-token-set", Prop: "C13", File: f, Old: "\t\tcase '!', '#', '$', '%', '&', '\\'', '*', '+',\n\t\t\t'-', '.', '^', '_', '`', '|', '~': // allowed special chars", New: "\t\tcase '!', '#', '$', '%', '&', '\\'', '*', '+', ':',\n\t\t\t'-', '.', '^', '_', '`', '|', '~': // allowed special chars",
 			Expect: []string{"byteset.name"}, Note: "':' accepted in field names"},
 		Mutant{ID: "C13-status-first-empty", Prop: "C13", File: f, Old: "\tcase len(statusVals) == 0:\n\t\tprinter.Printf(\"trailers did not include 'grpc-status' key\")\n", New: "",
@@ -361,6 +363,24 @@ func runC13(p *Prog, r *Report) {
 			diffs = append(diffs[:8], "…")
 		}
 		r.Check(len(diffs) == 0, w.key, "R-BYTESET", p.Pos(fn.Pos()), w.fn+" accepts exactly "+w.what, w.fn+" deviates from "+w.what+" for: "+strings.Join(diffs, ", "))
+	}
+
+	// the must-escape predicate shared by the grpc-message validator and the encoder
+	if esc := p.Func(pkgGU, "", "ShouldEscapeByteInMessage"); esc != nil {
+		decl, pkg := p.Decl(esc)
+		set, ok := byteSet(pkg, decl)
+		r.Sites += 256
+		if !ok {
+			r.Undecided("byteset.must-escape", "R-BYTESET", "ShouldEscapeByteInMessage is no longer a single boolean expression over its byte parameter")
+		} else {
+			var diffs []string
+			for b := 0; b < 256; b++ {
+				if want := b < 0x20 || b > 0x7E || b == '%'; set[b] != want {
+					diffs = append(diffs, fmt.Sprintf("0x%02X must-escape=%v", b, set[b]))
+				}
+			}
+			r.Check(len(diffs) == 0, "byteset.must-escape", "R-BYTESET", p.Pos(esc.Pos()), "must-escape set = {<0x20} ∪ {>0x7E} ∪ {'%'}", "the grpc-message must-escape predicate deviates from the gRPC rule for: "+strings.Join(diffs, ", ")+" — the server would emit (and the client accept) bytes that are invalid in a header value")
+		}
 	}
 
 	// ---- enc-agree ----
